@@ -6,7 +6,17 @@ Frames are self-identifying (vlib.gen.files), and `read` results are compared bi
 slice of a full read through a fresh handle (same decoder, so no tolerance).  Only in-domain operations
 are generated (k <= n-pos for read(k), targets in [0,n) for seeks).  An operation that raises
 NotImplementedError / is missing is "not offered" by that format: recorded, never judged.
-Thorough tier: every in-domain sequence of length <= 5 over the alphabet, per format (exhaustive)."""
+Thorough tier: every in-domain sequence of length <= 5 over the alphabet, per format (exhaustive).
+
+Round-5 widening (same model): (1) every array the file object returns from read() -- times, steps, cells / box vectors,
+lambda, velocities, energies ... -- is compared with the matching slice of the reference read, not only the coordinates
+(monitor read.fields); (2) seek(offset, whence=2) "relative to the end of file, offset <= 0" where the class offers it
+(op eseek); (3) files as other programs write them and option classes of md.open: LAMMPS dumps (other column sets,
+triclinic bounds, unsorted atoms), extended XYZ (+gz), AMBER NetCDF with velocities/forces/temp0, HDF5 with every optional
+field, DCD big-endian / 8-byte record markers / degree angles + long title, TRR whose frames differ in size, mdcrd with
+another title and CRLF, Desmond directory opened through clickme.dtr, .arc without box line, extension aliases
+(.hdf5 .netcdf .crd), XTC so compressible that read() needs several buffer chunks, and XTC/TRR opened with the documented
+min_chunk_size / chunk_size_multiplier options forcing one-frame buffer chunks."""
 from __future__ import annotations
 
 import atexit
@@ -24,19 +34,27 @@ LEVEL = "exploration"
 NATIVE = ["mdtraj.formats.xtc", "mdtraj.formats.trr", "mdtraj.formats.dcd", "mdtraj.formats.dtr"]
 RULE = ("case = (format, atom count class, atom_indices?, one or two handles, in-domain op sequence); quick: seeded random "
         "sequences of length 3..10; thorough: every in-domain sequence of length <= 5 over 11 ops per format plus random "
-        "two-handle interleavings; non-trivial = at least one model comparison was decided; distinct = distinct descriptors")
+        "two-handle interleavings; round-5 streams: the same histories on foreign / alias / option file classes (see module docstring), histories with seek(offset, whence=2), every array of the read() result compared; non-trivial = at least one model comparison was decided; distinct = distinct descriptors")
 WORKERS = {"quick": 8, "thorough": 16}
 BUDGET = {"quick": 60, "thorough": 1200}
 EXHAUSTIVE = {"quick": False, "thorough": True}
 N_FRAMES = 6
 N_LONG = 230
 FMTS = ["h5", "xtc", "xtc9", "trr", "dcd", "dcd0", "dcd4", "dcdfix", "trr-double", "trr-vf", "mdcrd-hasbox", "mdcrd-nobox20", "nc", "mdcrd", "mdcrd-nobox", "xyz", "xyz-foreign", "xyz.gz", "lammpstrj", "dtr", "arc"]
+OLD_FMTS = list(FMTS)   # the pre-widening streams keep drawing from this list, so their cases are unchanged
+# round-5 classes (module docstring; writers in vlib/gen/files.py)
+WIDE = ["lammpstrj-ortho-vel", "lammpstrj-tric", "xyz-ext", "xyz-ext.gz", "nc-amber", "nc-double", "h5-rich", "dcd-be", "dcd-rec64", "dcd-deg", "trr-mixed",
+        "mdcrd-crlf", "dtr-clickme", "arc-nobox", "xtc-dense", "hdf5", "netcdf", "crd", "xtc-chunk1", "trr-chunk1"]
+FMTS = FMTS + WIDE
+TRR_CLASSES = {"trr-double": "trr", "trr-vf": "trr", "trr-mixed": "trr", "trr-chunk1": "trr"}   # one reader, one mechanism key
+UNIT = {"h5": 1.0, "hdf5": 1.0, "xtc": 1.0, "trr": 1.0}   # others: angstrom (10 per nm)
 # dcd0 = DCD whose header frame count was never patched (0); dcd4 = CHARMM 4-dimensional DCD (see vlib/gen/files.py);
 # mdcrd-nobox = MDCRD without box lines (the default files carry a cell)
 # gro is not seekable (seek raises NotImplementedError) and is not in the property's list: not judged here.
 ALPHABET = [("read", 1), ("read", 2), ("read", 3), ("readall", None), ("seek", 0), ("seek", 2), ("seek", 5),
             ("rseek", 1), ("rseek", -1), ("tell", None), ("len", None)]
-FLOORS = {"quick": {"read.frames": 2500, "tell": 2000, "len": 600, "final.remainder": 1000}}
+ALPHABET_E = ALPHABET + [("eseek", -1), ("eseek", -4)]   # + seek(offset, whence=2): used by the round-5 streams only
+FLOORS = {"quick": {"read.frames": 2500, "tell": 2000, "len": 600, "final.remainder": 1000, "read.fields": 20000}}
 ASSUMPTIONS = ["a full read() through a fresh handle is the reference for frame content (content itself is C01's subject); "
                "it is additionally checked to identify frames 0..n-1 in order",
                "out-of-range reads and seeks are outside the property's domain and are not generated"]
@@ -59,6 +77,8 @@ def in_domain(op, arg, pos, n):
         return 0 <= arg < n
     if op == "rseek":
         return 0 <= pos + arg < n
+    if op == "eseek":
+        return arg <= 0 and 0 <= n + arg < n
     return True
 
 
@@ -71,6 +91,8 @@ def apply_model(op, arg, pos, n):
         return arg
     if op == "rseek":
         return pos + arg
+    if op == "eseek":
+        return n + arg
     return pos
 
 
@@ -86,7 +108,7 @@ def _gen_cases(tier, seed):
     n = N_FRAMES
     i = 0
     if tier == "thorough":
-        for fmt in FMTS:
+        for fmt in OLD_FMTS:
             for L in range(1, 6):
                 for seq in itertools.product(range(len(ALPHABET)), repeat=L):
                     pos, ok = 0, True
@@ -102,7 +124,7 @@ def _gen_cases(tier, seed):
     nrand = 20000 if tier == "quick" else 40000
     for j in range(nrand):
         rng = common.rng_for("C18", seed, j)
-        fmt = FMTS[j % len(FMTS)]
+        fmt = OLD_FMTS[j % len(OLD_FMTS)]
         n = N_FRAMES
         if j % 20 == 19:
             n = N_LONG  # a long file: reads, seeks and skips over hundreds of frames
@@ -125,6 +147,67 @@ def _gen_cases(tier, seed):
             pos[h] = apply_model(o, a, pos[h], n)
         yield dict(i=i, fmt=fmt, ai=bool(rng.random() < 0.35), ops=ops, **({"n": n} if n != N_FRAMES else {}))
         i += 1
+    # ---- round-5 streams: the new file / option classes, and whence=2 seeks on every class
+    n = N_FRAMES
+    if tier == "thorough":
+        for fmt in WIDE:
+            for L in range(1, 5):
+                for seq in itertools.product(range(len(ALPHABET)), repeat=L):
+                    pos, ok = 0, True
+                    for q in seq:
+                        op, arg = ALPHABET[q]
+                        if not in_domain(op, arg, pos, n):
+                            ok = False
+                            break
+                        pos = apply_model(op, arg, pos, n)
+                    if ok:
+                        yield dict(i=i, fmt=fmt, ai=bool((i // 7) % 3 == 0), ops=[[0, ALPHABET[q][0], ALPHABET[q][1]] for q in seq])
+                        i += 1
+        for fmt in FMTS:
+            for L in range(1, 5):
+                for seq in itertools.product(range(len(ALPHABET_E)), repeat=L):
+                    if not any(ALPHABET_E[q][0] == "eseek" for q in seq):
+                        continue
+                    pos, ok = 0, True
+                    for q in seq:
+                        op, arg = ALPHABET_E[q]
+                        if not in_domain(op, arg, pos, n):
+                            ok = False
+                            break
+                        pos = apply_model(op, arg, pos, n)
+                    if ok:
+                        yield dict(i=i, fmt=fmt, ai=bool((i // 5) % 3 == 0), ops=[[0, ALPHABET_E[q][0], ALPHABET_E[q][1]] for q in seq])
+                        i += 1
+    nwide = 14000 if tier == "quick" else 30000
+    for j in range(nwide):
+        rng = common.rng_for("C18wide", seed, j)
+        # two thirds on the new classes, one third whence=2 histories on all classes
+        ends = j % 3 == 2
+        fmt = FMTS[(j // 3) % len(FMTS)] if ends else WIDE[(j - j // 3) % len(WIDE)]
+        n = N_LONG if j % 20 == 19 else N_FRAMES
+        two = bool(rng.random() < 0.4)
+        L = int(rng.integers(3, 11 if tier == "quick" else 13))
+        pos = [0, 0]
+        ops = []
+        for _ in range(L):
+            h = int(rng.integers(0, 2)) if two else 0
+            cand = [(o, a) for o, a in (ALPHABET_E if ends else ALPHABET) if in_domain(o, a, pos[h], n)]
+            o, a = cand[int(rng.integers(len(cand)))]
+            if o == "read":
+                a = int(rng.integers(1, n - pos[h] + 1))
+            elif o == "seek":
+                a = int(rng.integers(0, n))
+            elif o == "rseek":
+                a = int(rng.integers(-pos[h], n - pos[h]))
+            elif o == "eseek":
+                a = -int(rng.integers(1, n + 1))
+            ops.append([h, o, a])
+            pos[h] = apply_model(o, a, pos[h], n)
+        c = dict(i=i, fmt=fmt, ai=bool(rng.random() < 0.35), ops=ops, **({"n": n} if n != N_FRAMES else {}))
+        if c["ai"] and rng.random() < 0.6:
+            c["aiv"] = int(rng.integers(1, 4))   # which atoms, and in which container (see run_case)
+        yield c
+        i += 1
 
 
 def _file_for(fmt, N_FRAMES=N_FRAMES):
@@ -132,7 +215,21 @@ def _file_for(fmt, N_FRAMES=N_FRAMES):
     import mdtraj as md
     if (fmt, N_FRAMES) in _CACHE:
         return _CACHE[fmt, N_FRAMES]
-    if fmt == "arc":
+    if fmt in WIDE:
+        base = {"xtc-chunk1": "xtc", "trr-chunk1": "trr"}.get(fmt)
+        ext = base or files.WIDE_EXT[fmt]
+        if base:
+            # documented md.open options of the XDR classes: buffer chunks of a single frame when reading to the end
+            _OPENKW[fmt] = dict(min_chunk_size=1, chunk_size_multiplier=0.01)
+        t = (files.ident_traj_dense(N_FRAMES) if fmt == "xtc-dense" else
+             files.ident_traj(N_FRAMES, 12, cell={"arc-nobox": None, "dcd-deg": "tric"}.get(fmt, "ortho")))
+        na = t.n_atoms
+        path = os.path.join(_TMP, f"f_{fmt}_{N_FRAMES}.{ext}")
+        if base:
+            t.save(path)
+        else:
+            path = files.write_wide_class(fmt, path, t, N_FRAMES, na)
+    elif fmt == "arc":
         # read-only format: the file is produced by the harness (vlib/gen/files.py arc_write)
         ext, na = "arc", 12
         path = os.path.join(_TMP, f"f_arc_{N_FRAMES}.arc")
@@ -160,13 +257,35 @@ def _file_for(fmt, N_FRAMES=N_FRAMES):
         elif fmt in ("trr-double", "trr-vf"):
             # GROMACS-written TRR: double precision and/or velocity + force blocks (vlib/gen/files.py)
             files.trr_write_foreign(path, t.xyz, t.unitcell_vectors, t.time, double=(fmt == "trr-double"), velocities=True, forces=True)
-    with md.open(path, **files.open_kwargs(ext, na), **_OPENKW.get(fmt, {})) as fh:
-        R = np.array(files.coords_of(ext, fh.read()))
-    f, a = files.identify(R / (10.0 if ext == "arc" else files.FORMATS[ext]["unit"]))
+    with _open(fmt, path, ext, na) as fh:
+        res = fh.read()
+        R = np.array(files.coords_of(ext, res))
+    _REF[fmt, N_FRAMES] = [(nm, None if v is None else np.array(v)) for nm, v in _fields(res)]
+    f, a = files.identify(R / UNIT.get(ext, 10.0))
     good = (R.shape[0] == N_FRAMES and np.array_equal(f[:, 0], np.arange(N_FRAMES) % 40)
-            and np.array_equal(a[0], np.arange(na)))
+            and (np.array_equal(a[0][:12], np.arange(12)) if fmt == "xtc-dense" else np.array_equal(a[0], np.arange(na))))
     _CACHE[fmt, N_FRAMES] = (path, ext, na, R, good)
     return _CACHE[fmt, N_FRAMES]
+
+
+_REF = {}
+
+
+def _open(fmt, path, ext, na):
+    import mdtraj as md
+    kw = dict(_OPENKW.get(fmt, {}))
+    if ext in ("mdcrd", "crd"):
+        kw["n_atoms"] = na
+    return md.open(path, **kw)
+
+
+def _fields(res):
+    """(name, value) of every member of what read() returned (namedtuple of the HDF5 class, plain tuples elsewhere)"""
+    if hasattr(res, "_fields"):
+        return [(nm, getattr(res, nm)) for nm in res._fields]
+    if isinstance(res, tuple):
+        return [(f"#{k}", v) for k, v in enumerate(res)]
+    return [("#0", res)]
 
 
 def run_case(case, ctx):
@@ -183,11 +302,16 @@ def run_case(case, ctx):
         # re-map the op arguments into this file's length
         pass
     idx = np.array([1, 3, 4]) if case["ai"] else None
+    if case.get("aiv"):
+        # a contiguous leading range (what a reader may turn into a slice), the single last atom, a plain list
+        idx = {1: np.arange(6), 2: np.array([na - 1]), 3: [0, na // 2, na - 2, na - 1]}[case["aiv"]]
+        ctx.observe("atom_indices_kind", {1: "contiguous range", 2: "last atom only", 3: "python list"}[case["aiv"]])
     ctx.observe("format", fmt)
     ctx.observe("atom_indices", case["ai"])
     nh = 1 + max(h for h, _, _ in case["ops"])
     ctx.observe("handles", nh)
-    handles = [md.open(path, **files.open_kwargs(ext, na), **_OPENKW.get(fmt, {})) for _ in range(nh)]
+    handles = [_open(fmt, path, ext, na) for _ in range(nh)]
+    ref_fields = _REF[fmt, case.get("n", N_FRAMES)]
     pos = [0] * nh
     last = ["open"] * nh
     off = {}
@@ -198,14 +322,22 @@ def run_case(case, ctx):
 
     def K(h, specific):
         # (same reader for the GROMACS-written TRR classes: one mechanism, one key)
-        return f"{ {'trr-double': 'trr', 'trr-vf': 'trr'}.get(fmt, fmt)}:position-overcounted-after-read()-reached-eof" if eof[h] else specific
+        return f"{TRR_CLASSES.get(fmt, fmt)}:position-overcounted-after-read()-reached-eof" if eof[h] else specific
     try:
+        if fmt == "dcd-rec64":
+            ln = len(handles[0])
+            if ln != n:
+                # one mechanism (frame size computed with 4-byte record markers, header count overridden): every later len /
+                # read() / tell discrepancy of this class is its consequence, so the history is not followed further
+                ctx.violation("len", "dcd:8-byte-record-markers:frame-count-recomputed-from-file-size-assuming-4-byte-markers",
+                              f"dcd with 8-byte Fortran record markers (CHARMM -i8), {n} frames: len() == {ln}", ops=case["ops"])
+                return
         for h, op, arg in case["ops"]:
             fh = handles[h]
             if not in_domain(op, arg, pos[h], n):
                 ctx.skip("domain", "operation out of range for this file length")
                 continue
-            name = {"read": "read(n)", "readall": "read()", "seek": "seek(abs)", "rseek": "seek(rel)", "tell": "tell",
+            name = {"read": "read(n)", "readall": "read()", "seek": "seek(abs)", "rseek": "seek(rel)", "eseek": "seek(end)", "tell": "tell",
                     "len": "len"}[op]
             if off.get(name) is False:
                 continue
@@ -218,6 +350,8 @@ def run_case(case, ctx):
                     res = fh.seek(arg)
                 elif op == "rseek":
                     res = fh.seek(arg, 1)
+                elif op == "eseek":
+                    res = fh.seek(arg, 2)
                 elif op == "tell":
                     res = fh.tell()
                 else:
@@ -226,7 +360,7 @@ def run_case(case, ctx):
                 if isinstance(e, NotImplementedError) or "has no len" in str(e) or isinstance(e, AttributeError):
                     off[name] = False
                     ctx.observe("not_offered", f"{fmt}:{name}")
-                    if op in ("seek", "rseek"):
+                    if op in ("seek", "rseek", "eseek"):
                         break  # the model cannot follow; stop this history
                     continue
                 raise
@@ -236,6 +370,11 @@ def run_case(case, ctx):
                     eof[h] = True
                     last[h] = name
                     continue
+                if ext == "trr" and isinstance(e, IndexError) and "Out of bounds on buffer access" in str(e):
+                    # the table of frame offsets is sized from the FIRST frame and grown by int(len*1.2): no growth while len <= 4
+                    ctx.violation("raises", "trr:frames-of-different-sizes:offset-table-of-<=4-entries-never-grows:IndexError",
+                                  f"{fmt}: in-domain {name} after {last[h]} at pos {pos[h]} raised IndexError: {e}", ops=case["ops"])
+                    break
                 ctx.violation("raises", K(h, f"{fmt}:{name}:raises-in-domain:{type(e).__name__}"),
                               f"{fmt}: in-domain {name} after {last[h]} at pos {pos[h]} raised {type(e).__name__}: {e}", ops=case["ops"])
                 break
@@ -266,6 +405,26 @@ def run_case(case, ctx):
                                   f"{fmt}: {name} at pos {pos[h]} after {last[h]} returned frames starting at {where or '?'}", ops=case["ops"])
                     break
                 ctx.ok("read.frames")
+                # every other array of the result (times, steps, cells, velocities ...) must be the same slice of the reference
+                bad_field = None
+                for (nm, ref), (_, val) in zip(ref_fields[1:], _fields(res)[1:]):
+                    if ref is None:
+                        if val is not None:
+                            bad_field = (nm, "present although the full read has none")
+                        continue
+                    want = ref[pos[h]:pos[h] + k]
+                    if idx is not None and want.ndim == 3 and want.shape[1:] == (na, 3) and na != 3:
+                        want = want[:, idx]
+                    if val is None or np.asarray(val).shape != want.shape or not np.array_equal(np.asarray(val), want):
+                        bad_field = (nm, "None" if val is None else f"shape {np.asarray(val).shape}, expected {want.shape}" if np.asarray(val).shape != want.shape else "values differ")
+                        break
+                if bad_field:
+                    ctx.violation("read.fields", K(h, f"{fmt}:{name}:field-{bad_field[0]}-is-not-the-slice-of-the-full-read-after-{last[h]}"),
+                                  f"{fmt}: {name} at pos {pos[h]} after {last[h]}: member {bad_field[0]} of the result: {bad_field[1]}", ops=case["ops"])
+                    break
+                if len(ref_fields) > 1:
+                    ctx.ok("read.fields")
+                    ctx.observe("fields_compared", f"{ext}:{len(ref_fields) - 1}")
                 if op == "readall":
                     eof[h] = True
             elif op == "tell":
@@ -280,8 +439,8 @@ def run_case(case, ctx):
                     break
                 ctx.ok("len")
             pos[h] = apply_model(op, arg, pos[h], n)
-            if op == "seek":
-                eof[h] = False  # an absolute seek re-bases the position
+            if op in ("seek", "eseek"):
+                eof[h] = False  # an absolute (or end-relative) seek re-bases the position
             if op not in ("tell",):
                 last[h] = name
         else:
